@@ -12,7 +12,8 @@ Inductive sop :=
 | SEv (key ns ek act val tm : N) (obs : list (N * N * N))
       (* act 0 = none, 1 = put val, 2 = delete; tm 0 = no timer; obs = KeyState handed to the handler BEFORE the event *)
 | SWm (t : N) (fired : list (N * N))                       (* (key, ts) of the TimerExpired events delivered *)
-| SRescale (n : N) (recorded : list (kgrange * ckdoc)) (asg : list (list N)) (layout_ok : bool) (probes : list (list probe)).
+| SRescale (n : N) (recorded : list (kgrange * ckdoc)) (asg : list (list N)) (layout_ok : bool) (probes : list (list probe))
+| SSave (c : sp_case).                                     (* C14: observations of a savepoint taken / restored here *)
 
 Inductive case :=
 | CAssign (to from : list kgrange) (res : list (list N))
@@ -142,9 +143,13 @@ Definition step (count : N) (rs : rstate * list N) (o : sop) : rstate * list N :
       let to := kg_ranges count n in
       let from := map fst recorded in
       let e1 := check_assign (Some count) to from asg 21 in
-      let e2 := if layout_ok then model_rescale count n recorded probes else [] in
-      let cls := r_class r || (layout_ok && class_at count n recorded) in
+      let here := layout_ok && class_at count n recorded in
+      (* inside the class the reads of a composite depend on whether a compaction has already rewritten the
+         overlapping level (the model abstracts flush / compaction away, which is only sound for well-formed levels) *)
+      let e2 := if layout_ok && negb here then model_rescale count n recorded probes else [] in
+      let cls := r_class r || here in
       (mkR (r_st r) (r_tm r) 0 n cls, errs ++ e1 ++ e2)
+  | SSave c => (r, errs ++ check_sp c)
   end.
 
 Definition check_rescale (count n0 : N) (ops : list sop) : list N :=
